@@ -32,8 +32,10 @@ PROPERTY = 'C19'
 LEVEL = 'model_checking'
 EXHAUSTIVE = True
 RULE = ("BFS over histories of depth <= D over {ok, ok with result_dir "
-        "buffers, ok from a CSC query, run failing on a missing marker "
-        "table / negative raw value / killed worker, plant a stale entry "
+        "buffers, ok from a CSC query, ok cloud-safe with a summary file, "
+        "run failing on a missing marker table / negative raw value / "
+        "killed worker / truncated query / unwritable output path, plant a "
+        "stale entry "
         "under each of 9 name patterns}; canonical state = masked listings + "
         "digests of the shared scratch and output directories; every state "
         "checked.  Other stages: one run clean and one after planting.  "
@@ -63,8 +65,9 @@ PLANTS = {
     'precompute_buffer': ('file', 'precomputation_buffer_stale6.h5', 'junk'),
     'transpose': ('file', 'transpose_0_4_stale7.h5', 'junk'),
 }
-RUNS = ['ok', 'ok_result_dir', 'ok_csc', 'fail_markers', 'fail_negative',
-        'fail_worker']
+RUNS = ['ok', 'ok_result_dir', 'ok_csc', 'ok_summary', 'fail_markers',
+        'fail_negative', 'fail_worker', 'fail_corrupt_query',
+        'fail_unwritable_output']
 
 
 def bounds(tier):
@@ -137,6 +140,9 @@ class World(object):
         m[1, 1] = -3.0
         self.q_neg = scenario.write_query(self.b, 'raw', 'dense',
                                           name='neg.h5ad', matrix=m)
+        raw = pathlib.Path(self.q_raw).read_bytes()
+        self.q_trunc = self.in_dir / 'truncated.h5ad'
+        self.q_trunc.write_bytes(raw[:len(raw) // 2])
         self.inputs = snapshot(self.in_dir)
         self.planted_scr = {}
         self.planted_res = {}
@@ -189,6 +195,19 @@ class World(object):
             qpath = self.q_neg
         elif flavour == 'fail_worker':
             faults = {1: ('kill', 'after')}
+        elif flavour == 'fail_corrupt_query':
+            # a truncated copy of the query: the run fails AND the output
+            # stage of the run (which re-reads the query) fails
+            qpath = self.q_trunc
+        elif flavour == 'fail_unwritable_output':
+            def extra(c):
+                c['extended_result_path'] = str(
+                    self.out / 'no_such_dir' / 'out.json')
+        elif flavour == 'ok_summary':
+            cfg['cloud_safe'] = True
+
+            def extra(c):
+                c['summary_metadata_path'] = str(self.out / 'summary.json')
 
         def edit(config):
             self.config_paths(config, flavour)
@@ -245,7 +264,8 @@ class World(object):
             if got:
                 out.append(('file-outside-requested-locations',
                             f'{what}: {label} contains {sorted(got)}'))
-        allowed = {'out.json', 'out.csv', 'out.h5', 'log.txt'}
+        allowed = {'out.json', 'out.csv', 'out.h5', 'log.txt',
+                   'summary.json'}
         got = set(snapshot(self.out))
         if got - allowed:
             out.append(('file-outside-requested-locations',
